@@ -27,7 +27,7 @@ IsH(I, v) == I.tG[v][1] = HCODE
 (* reaction-centre bond: order differs between the sides; H-H bonds always kept *)
 RCEdge(I, u, v) == ItsEdge(I, u, v) /\ (I.oG[u][v] # I.oH[u][v] \/ (IsH(I, u) /\ IsH(I, v)))
 RCEdges(I) == {<<u, v>> \in INodes(I) \X INodes(I) : u < v /\ RCEdge(I, u, v)}
-RCNodes(I) == {e[1] : e \in RCEdges(I)} \cup {e[2] : e \in RCEdges(I)}
+RCNodes(I) == LET E == RCEdges(I) IN {e[1] : e \in E} \cup {e[2] : e \in E}
 
 Nbrs(I, X) == {v \in INodes(I) : \E u \in X : ItsEdge(I, u, v)}
 RECURSIVE Ball(_, _, _)
